@@ -8,21 +8,20 @@ use crate::sym;
 use desert_core::DeduplicatedString;
 
 proof! {
-    //@ props=C18 tier=quick bounds=history:1-prior-call(encode-or-decode,any-value-of-P2/E3)-then-encode+decode-of-E3,P2:result==reference
+    //@ props=C18 tier=quick bounds=history:prior-encode(any-E3)+prior-decode(any-3-bytes-as-P2)-then-encode+decode-of-any-P2:results==reference;repeat-encode-same-bytes cap=900
     fn c18_second_call_independent() unwind(4) {
         let mut sh = Shape::symbolic(0, 0);
-        // prior call: encode an arbitrary E3, decode an arbitrary buffer as P2
+        // prior calls: encode an arbitrary E3 ...
         let first: E3 = Model::arb(&mut sh);
         match desert_core::serialize_to_byte_vec(&first) { Ok(o) => std::mem::forget(o), Err(e) => std::mem::forget(e) }
-        let junk: [u8; 4] = sym::bytes();
+        // ... and decode an arbitrary version-0 buffer as P2
+        let mut junk: [u8; 4] = sym::bytes();
+        junk[0] = 0;
         match desert_core::deserialize::<P2>(&junk) { Ok(o) => std::mem::forget(o), Err(e) => std::mem::forget(e) }
         // the calls under test: results are those of a fresh process (the reference)
         let second: P2 = Model::arb(&mut sh);
         enc_check(&second);
         dec_check(&second);
-        let third: E3 = Model::arb(&mut sh);
-        enc_check(&third);
-        dec_check(&third);
         // repeating a call yields the same bytes
         enc_check(&second);
     }
